@@ -367,18 +367,28 @@ type TypeConverter interface {
 func NewTypeConverter(typ reflect.Type) (TypeConverter, error) {
 	goTypeMutex.Lock()
 	defer goTypeMutex.Unlock()
+	if verifOn {
+		verifSync("lock", "goTypeMutex")
+		defer verifSync("unlock", "goTypeMutex")
+	}
 
 	return createTypeConverter(typ)
 }
 
 // The caller must hold the goTypeMutex lock.
 func createTypeConverter(typ reflect.Type) (TypeConverter, error) {
+	if verifOn {
+		verifSync("read", "typeConverters")
+	}
 	if conv, ok := typeConverters[typ]; ok {
 		return conv, nil
 	}
 	conv, err := getTypeConverter(typ)
 	if err != nil {
 		return nil, err
+	}
+	if verifOn {
+		verifSync("write", "typeConverters")
 	}
 	typeConverters[typ] = conv
 	return conv, nil
@@ -389,6 +399,11 @@ func createTypeConverter(typ reflect.Type) (TypeConverter, error) {
 func SetTypeConverter(typ reflect.Type, conv TypeConverter) {
 	goTypeMutex.Lock()
 	defer goTypeMutex.Unlock()
+	if verifOn {
+		verifSync("lock", "goTypeMutex")
+		defer verifSync("unlock", "goTypeMutex")
+		verifSync("write", "typeConverters")
+	}
 
 	typeConverters[typ] = conv
 }
@@ -404,6 +419,9 @@ func getTypeConverter(typ reflect.Type) (TypeConverter, error) {
 			return &NamedConverter{typ: typ, base: base, conv: conv}, nil
 		}
 		return conv, nil
+	}
+	if verifOn {
+		verifSync("read", "typeConverters")
 	}
 	if conv, ok := typeConverters[typ]; ok {
 		return conv, nil
